@@ -582,6 +582,34 @@ func typedPayload(typ string, t *sim.Tape, rnd *sim.Rand) []byte {
 				u8(t.Draw(256))
 			}
 		}
+	case "uuid":
+		tfrf := []byte{0xd4, 0x80, 0x7e, 0xf2, 0xca, 0x39, 0x46, 0x95, 0x8e, 0x54, 0x26, 0xcb, 0x9e, 0x46, 0xa7, 0x9f}
+		tfxd := []byte{0x6d, 0x1d, 0x9b, 0x05, 0x42, 0xd5, 0x44, 0xe6, 0x80, 0xe2, 0x14, 0x1d, 0xaf, 0xf7, 0x57, 0xb2}
+		ver := t.Draw(2)
+		w := func() {
+			if ver == 1 {
+				u64(uint64(val()))
+			} else {
+				u32(val())
+			}
+		}
+		if t.Bool() {
+			p = append(p, tfrf...)
+			vf(ver, 0)
+			if claimed > 255 {
+				claimed = 255
+			}
+			u8(int(claimed))
+			for i := 0; i < cnt; i++ {
+				w()
+				w()
+			}
+		} else {
+			p = append(p, tfxd...)
+			vf(ver, 0)
+			w()
+			w()
+		}
 	case "senc":
 		fl := subset(0x2)
 		vf(0, fl)
